@@ -463,4 +463,16 @@ def intersectLo (los : List EVal) : EVal := los.foldl EVal.max .ninf
 /-- `M = min(M, M_)` over all sources, starting from +inf -/
 def intersectHi (his : List EVal) : EVal := his.foldl EVal.min .pinf
 
+/-- the box `ModelicaMixin.bounds()` starts from when the classes below it give no entry for the
+    variable: `(0, 1)` for a variable declared `Boolean`, unbounded for every other type (a
+    discrete `Integer` has no default box) -/
+def defaultBox (isBoolean : Bool) : EVal × EVal :=
+  if isBoolean then (.fin 0, .fin 1) else (.ninf, .pinf)
+
+/-- `ModelicaMixin.bounds()[v]`: the user's pair (or the default box) intersected with the declared
+    `min` / `max` attributes (`∓inf` when not declared) -/
+def modelicaBox (isBoolean : Bool) (user : Option (EVal × EVal)) (mn mx : EVal) : EVal × EVal :=
+  let base := user.getD (defaultBox isBoolean)
+  (EVal.max base.1 mn, EVal.min base.2 mx)
+
 end RtcVerif.C05
